@@ -143,12 +143,17 @@ func NewWorld() *World {
 
 // Shared returns the named shared objects whose fingerprints must not change under read-only use.
 func (w *World) Shared() map[string]interface{} {
-	return map[string]interface{}{
+	m := map[string]interface{}{
 		"basic-node": w.Basic, "bindnode-node": w.Bind, "bindnode-map-with-struct-keys": w.BindKMap, "bindnode-map-with-enum-keys": w.BindEMap, "generated-node": w.Gen, "reader-backed-bytes-node": w.Large,
 		"compiled-selector": w.Sel, "compiled-selector-limited-all": w.SelLimA, "compiled-selector-limited-fields": w.SelLimF, "config-unset": w.CfgUnset, "config-set": w.CfgSet, "type-system": w.TS,
 		"bindnode-prototype": w.BindProto, "link-system": w.LS, "memstore": w.MemStore, "cidlink-memory": w.CidMem,
-		"bindnode.defaultTypeSystem": bindnode.VerifDefaultTypeSystem(), "multicodec.DefaultRegistry": &multicodec.DefaultRegistry,
+		"multicodec.DefaultRegistry": &multicodec.DefaultRegistry,
 	}
+	if ts := bindnode.VerifDefaultTypeSystem(); ts != nil {
+		// (present only while package bindnode keeps a package-level type system for inferred schemas)
+		m["bindnode.defaultTypeSystem"] = ts
+	}
+	return m
 }
 
 // Op is one operation of the alphabet; it returns an observation string.
@@ -290,6 +295,17 @@ func Ops() []Op {
 		{"bind-wrap-inferred", func(w *World) string {
 			n := bindnode.Wrap(&BInf{X: 1, S: "s"}, nil)
 			return obs(n)
+		}},
+		{"bind-wrap-inferred-top-level-slice", func(w *World) string {
+			n := bindnode.Wrap(&[]string{"a", "b"}, nil)
+			return obs(n)
+		}},
+		{"bind-prototype-inferred-top-level-slice", func(w *World) string {
+			nb := bindnode.Prototype((*[]int64)(nil), nil).NewBuilder()
+			if err := ref.Assign(nb, ref.List(ref.Int(1), ref.Int(2))); err != nil {
+				return err.Error()
+			}
+			return obs(nb.Build())
 		}},
 		{"bind-prototype-build", func(w *World) string {
 			nb := w.BindProto.NewBuilder()
